@@ -453,6 +453,16 @@ func runC05(c *Ctx) {
 			okShape = sawParam && sawJoin
 		})
 		c.check(okShape, "R4", "toLocalPath result", p.Pos(tl.Pos()), "p or path.Join(workDir, p)", "toLocalPath returns something other than p or path.Join(workDir, p)")
+		// path.Join cleans: "link/../x" loses the symlink before the file system sees it.  A process whose working
+		// directory is workDir resolves such a path through the link.
+		cleans := false
+		eachInstr(tl, func(in ssa.Instruction) {
+			if cc := callOf(in); cc != nil && (callIs(cc, "path.Join") || callIs(cc, "path.Clean") || callIs(cc, "path/filepath.Join") || callIs(cc, "path/filepath.Clean")) {
+				cleans = true
+			}
+		})
+		c.check(!cleans, "R4", "relative paths are resolved by the file system, not lexically", p.Pos(tl.Pos()), "workDir + \"/\" + p",
+			"toLocalPath cleans the joined path lexically: for a directory symlink l, \"l/../f\" names workDir/f instead of the f next to l's target (Remove deletes the wrong file), \"missing/../f\" exists, \"f/\" is a file")
 		c.check(guard, "R4", "only relative paths are joined", p.Pos(tl.Pos()), "join guarded by !path.IsAbs(p)", "absolute paths are no longer passed through unchanged (or relative ones are not resolved against the working directory)")
 	}
 }
@@ -1057,7 +1067,10 @@ func checkRemoveAllComposite(c *Ctx, rule string) {
 	c.check(recur == 1 && remChild == 1 && remSelf == 1, rule, "RemoveAll steps", p.Pos(fn.Pos()), "recursion, child removal, self removal", fmt.Sprintf("%d recursive, %d child and %d self removals found", recur, remChild, remSelf))
 	src := errSources(fn, 0)
 	want := map[string]bool{"call:Stat": true, "call:ReadDir": true, "call:RemoveAll": true, "call:Remove": true}
-	// Lstat is as good as Stat for the first probe
+	// the first probe must not follow a symlink: RemoveAll(link to a directory) removes the link, like os.RemoveAll;
+	// with Stat it empties the directory the link points to
+	c.check(src["call:Lstat"] && !src["call:Stat"], rule, "RemoveAll probes with Lstat", p.Pos(fn.Pos()), "c.Lstat(path)",
+		"RemoveAll examines path with Stat: a symlink to a directory is followed and the contents of the target directory are deleted (os.RemoveAll removes only the link); a dangling link is reported as not existing instead of being removed")
 	if src["call:Lstat"] {
 		delete(src, "call:Lstat")
 		src["call:Stat"] = true
